@@ -102,9 +102,10 @@ def build_rt():
     d = os.path.join(BUILD, "rt-" + rt_hash())
     os.makedirs(d, exist_ok=True)
     os.utime(d, None)
-    jobs = [(os.path.join(VERIF, "rt", s), os.path.join(d, s[:-4] + ".o"), []) for s in RT_SOURCES]
-    jobs.append((os.path.join(VERIF, "rt", "drv_rc.cpp"), os.path.join(d, "drv_rc.o"), []))
-    jobs.append((os.path.join(VERIF, "rt", "drv_fuzz.cpp"), os.path.join(d, "drv_fuzz.o"), []))
+    nocov = ["-fno-sanitize=fuzzer-no-link"]      # the runtime and oracles must not attract the fuzzer
+    jobs = [(os.path.join(VERIF, "rt", s), os.path.join(d, s[:-4] + ".o"), nocov) for s in RT_SOURCES]
+    jobs.append((os.path.join(VERIF, "rt", "drv_rc.cpp"), os.path.join(d, "drv_rc.o"), nocov))
+    jobs.append((os.path.join(VERIF, "rt", "drv_fuzz.cpp"), os.path.join(d, "drv_fuzz.o"), nocov))
     ok, log = _compile_many(jobs)
     if not ok:
         raise RuntimeError("runtime build failed:\n" + "\n".join(log))
@@ -120,7 +121,7 @@ def build_src():
     ok, log = _compile_many(jobs)
     if not ok:
         raise RuntimeError("libcds src build failed (does /repo compile with -D%s?):\n%s" % (GUARD, "\n".join(log)))
-    _prune("src-", 3)
+    _prune("src-", 12)
     return d
 
 
